@@ -90,3 +90,25 @@ Proof.
   destruct (run_trace c ops init_state []) as [tr sf] eqn:E. cbn [fst] in Isr.
   apply (run_trace_inv_data c FA FB ops init_state [] init_Inv ltac:(intros ? [])). rewrite E. exact Isr.
 Qed.
+
+(* the state in which a recorded history ends (possibly early) satisfies the invariant, so the final
+   reopen verdict of every dataset is true *)
+Lemma run_trace_final_Inv c : fix_a c = true -> fix_b c = true ->
+  forall ops s held, Inv s -> Inv (snd (run_trace c ops s held)).
+Proof.
+  intros FA FB. induction ops as [|p t IH]; intros s held I; cbn [run_trace snd]; [exact I|].
+  destruct (step c p s) as [s' r] eqn:E. pose proof (step_Inv c p s s' r FA FB I E) as I'.
+  destruct (all_true (verdicts p (code_of r) (observe s held) (observe s' (rescan s' held)))).
+  - specialize (IH s' (rescan s' held) I'). destruct (run_trace c t s' (rescan s' held)) as [rest sf]. exact IH.
+  - exact I'.
+Qed.
+
+Corollary case_reopen_ok c ops : fix_a c = true -> fix_b c = true ->
+  forall x, In x (snd (run_case c ops)) -> snd x = true.
+Proof.
+  intros FA FB x Ix. unfold run_case in Ix.
+  pose proof (run_trace_final_Inv c FA FB ops init_state [] init_Inv) as I.
+  destruct (run_trace c ops init_state []) as [tr sf]. cbn [snd] in *.
+  unfold final_views in Ix. apply in_map_iff in Ix. destruct Ix as (i & <- & _). cbn [snd].
+  apply Inv_chk_reopen. exact I.
+Qed.
